@@ -3,6 +3,7 @@ import StimModel.Model.TSim
 import StimModel.Model.PauliProp
 import StimModel.Model.Tableau
 import StimModel.Core.Formats
+import StimModel.Core.Bits
 /-! Line-protocol dispatcher: one request line in, one answer line out. -/
 namespace Stim.Driver
 open Stim Stim.Wire
@@ -239,6 +240,37 @@ def fmtCmd (toks : List String) : String :=
     | _, _, _, _ => "bad-request"
   | _ => "bad-request"
 
+open Stim.Bits in
+def bitsCmd (toks : List String) : String :=
+  let bv := bitsOf
+  let out := strOfBits
+  let rows (m : BM) : String := if m.isEmpty then "-" else String.intercalate " " (m.map out)
+  match toks with
+  | ["xor", a, b] => out (bxor (bv a) (bv b))
+  | ["and", a, b] => out (band (bv a) (bv b))
+  | ["or", a, b] => out (bor (bv a) (bv b))
+  | ["not", a] => out (bnot (bv a))
+  | ["popcnt", a] => toString (popcnt (bv a))
+  | ["notzero", a] => if notZero (bv a) then "1" else "0"
+  | ["ctz", a] => toString (ctz (bv a))
+  | ["intersects", a, b] => if intersects (bv a) (bv b) then "1" else "0"
+  | ["subset", a, b] => if subset (bv a) (bv b) then "1" else "0"
+  | ["shl", a, k] => out (shl (bv a) (k.toNat?.getD 0))
+  | ["shr", a, k] => out (shr (bv a) (k.toNat?.getD 0))
+  | ["add", a, b] => out (add (bv a) (bv b))
+  | ["sub", a, b] => out (sub (bv a) (bv b))
+  | ["trunc", d, s, k] => out (truncOverwrite (bv d) (bv s) (k.toNat?.getD 0))
+  | ["clearpast", a, k] => out (clearPast (bv a) (k.toNat?.getD 0))
+  | ["lt", a, b] => if ltWords (words64 ((bv a).length + 1) (bv a)) (words64 ((bv b).length + 1) (bv b)) then "1" else "0"
+  | "transpose" :: c :: rs => rows (Stim.Bits.transpose (rs.map bv) (c.toNat?.getD 0))
+  | "matmul" :: n :: rs =>
+    let k := n.toNat?.getD 0
+    rows (Stim.Bits.matMul ((rs.take k).map bv) ((rs.drop k).map bv) k)
+  | "isinverse" :: n :: rs =>
+    let k := n.toNat?.getD 0
+    if Stim.Bits.matMul ((rs.take k).map bv) ((rs.drop k).map bv) k == Stim.Bits.identity k then "1" else "0"
+  | _ => "bad-request"
+
 def answer (toks : List String) : String :=
   match toks with
   | "tsim" :: "check" :: rest => tsimCheck rest
@@ -246,6 +278,7 @@ def answer (toks : List String) : String :=
   | "pauli" :: rest => pauliCmd rest
   | "tab" :: rest => tabCmd rest
   | "fmt" :: rest => fmtCmd rest
+  | "bits" :: rest => bitsCmd rest
   | "gate" :: "act" :: rest => gateAct rest
   | "gate" :: "actu" :: rest => gateActU rest
   | "gate" :: "mismatch" :: [g] =>
